@@ -92,6 +92,7 @@ func runC11(c *Ctx) {
 	c.rule("D2", "every kind is listed in IsCommonError and has its own case in the deserialiser", 54)
 	c.rule("D3", "Errorf: one %w, first, bound to the target kind after ConvertContextError (ErrUnknown when nil); WrapError: a cancellation/deadline cause replaces the target kind", 3)
 	c.rule("D17", "WrapError looks at the cause on every path: the test Any(ConvertContextError(original), ErrTimeout, ErrCancelled) dominates every construction of the result, whatever the target is", 1)
+	c.contextConverterGoesByIdentity("D18", "every constructor and converter starts with this call: an error whose description merely mentions a cancellation is reclassified, and the wrong kind survives serialisation")
 	c.rule("D4", "converters normalise context errors first; a pass-through case for ErrTimeout/ErrCancelled precedes every re-classifying case", 5)
 	c.rule("D6", "deserialisation re-joins every element after the kind into the reason: loop from index 1, step one, unconditional append of the (trimmed) element", 1)
 	c.rule("D10", "WrapIfNotCommonError / WrapIfNotCommonErrorf: the branch that gives the result the kind of the cause is reached only where the target was found not to be a cancellation or a deadline", 2)
@@ -1705,4 +1706,74 @@ func (c *Ctx) c11ConvertersWrapTheKind(ruleIdentity, ruleWrap string) {
 	if ruleWrap != "" && nW == 0 {
 		c.info(ruleWrap, "module/no-errorf-with-a-kind", "-", "no converter builds its result with fmt.Errorf and a kind")
 	}
+}
+
+// contextConverterGoesByIdentity (C11/D18, evaluated as C02/X7 and C14/O13): every constructor and converter of the library
+// starts with ConvertContextError, so what it answers decides the kind of every error that passes through the library:
+// (a) it answers nil only for a nil argument — an error without a description is still an error (RetryIf returns what this
+//
+//	function made of the last error: nil there means 'some attempt succeeded');
+//
+// (b) it answers 'cancelled' / 'timeout' only where the error *is* (errors.Is / Any) context.Canceled / DeadlineExceeded —
+//
+//	never on the strength of the description: the descriptions the library builds contain the caller's names (an entry
+//	`../context canceled/x` refused as malicious, re-wrapped for the nested archive, comes out as 'cancelled').
+func (c *Ctx) contextConverterGoesByIdentity(rule, consequence string) {
+	c.rule(rule, "ConvertContextError answers nil only for a nil argument, and 'cancelled' / 'timeout' only where the argument was found (Any / errors.Is) to be context.Canceled / context.DeadlineExceeded — never by its description", 1)
+	f := c.fn(cePkg, "ConvertContextError")
+	if f == nil || len(f.Params) == 0 {
+		return
+	}
+	c.FuncsSeen[fname(f)] = true
+	prm := f.Params[0]
+	isIdentityTest := func(v ssa.Value, kind string) bool {
+		cl, ok := v.(*ssa.Call)
+		if !ok || len(cl.Call.Args) < 2 || resolveValue(cl.Call.Args[0]) != ssa.Value(prm) {
+			return false
+		}
+		n := calleeFull(&cl.Call)
+		var kinds []ssa.Value
+		switch {
+		case n == "errors.Is":
+			kinds = []ssa.Value{cl.Call.Args[1]}
+		case strings.HasSuffix(n, "commonerrors.Any"):
+			kinds = variadicElems(cl.Call.Args[1])
+		default:
+			return false
+		}
+		for _, k := range kinds {
+			if u, ok := stripConv(k).(*ssa.UnOp); ok {
+				if g, ok := u.X.(*ssa.Global); ok && g.Pkg != nil && g.Pkg.Pkg.Path() == "context" && g.Name() == kind {
+					return true
+				}
+			}
+		}
+		return false
+	}
+	bad := ""
+	rets := 0
+	allInstrs(f, func(in ssa.Instruction) {
+		r, ok := in.(*ssa.Return)
+		if !ok || len(r.Results) != 1 {
+			return
+		}
+		rets++
+		for _, l := range sources(r.Results[0], deriveOpts{}) {
+			switch {
+			case isNilConst(l):
+				if !onNilSide(prm, r) {
+					bad = c.ipos(r) + ": nil is answered although the argument was not found nil"
+				}
+			case isGlobalLoad(l, "ErrCancelled"):
+				if !onBoolSide(r, true, func(v ssa.Value) bool { return isIdentityTest(v, "Canceled") }) {
+					bad = c.ipos(r) + ": 'cancelled' is answered without the argument having been found to be context.Canceled"
+				}
+			case isGlobalLoad(l, "ErrTimeout"):
+				if !onBoolSide(r, true, func(v ssa.Value) bool { return isIdentityTest(v, "DeadlineExceeded") }) {
+					bad = c.ipos(r) + ": 'timeout' is answered without the argument having been found to be context.DeadlineExceeded"
+				}
+			}
+		}
+	})
+	c.check(rets > 0 && bad == "", rule, fname(f)+"/by-identity-and-nil-only-for-nil", c.pos(f.Pos()), "nil only for nil; the context kinds only for errors that are the context errors", bad+" — "+consequence)
 }
